@@ -30,8 +30,7 @@ CONSTANTS NameOrder,      \* all names, in byte order (strings cannot be compare
           SymLeaf,        \* leaf id standing for "symlink to target t0" (exhaustive cfg only)
           InitCI,         \* exhaustive cfg: case-insensitive normalizer?
           InitHid,        \* exhaustive cfg: hidden-files matcher enabled?
-          WithListing,    \* exhaustive cfg: run the Listing process?
-          WithBulk,       \* exhaustive cfg: include the worker-facing bulk calls?
+          Ops,            \* exhaustive cfg: the calls that are generated (set of names, see Next)
           AllowSubtreeRename  \* exhaustive cfg: generate renames of a directory into its own subtree?
 
 VARIABLES dirs, leaves,
@@ -44,6 +43,9 @@ vars == <<dirs, leaves, mode, reply, lst, hist>>
 
 \* values for NameOrder (a cfg file cannot contain a sequence)
 NamesSmall == <<"A", "a", "b">>
+NamesAB == <<"a", "b">>
+NamesCI == <<"A", "a">>
+NamesABC == <<"a", "b", "c">>
 NamesTrace == <<"A", "B", "_h", "a", "b", "c">>
 
 Names == {NameOrder[i] : i \in 1 .. Len(NameOrder)}
@@ -455,38 +457,40 @@ ChildMenus ==
 
 KernelCalls ==
   \E d \in DOMAIN dirs : \E n \in Names :
-    \/ Do(LookupRes(S0, d, n), H("lookup", d, n, 0, "", FALSE, FALSE, 0, 0, <<>>))
-    \/ FreeDirs # {} /\ Do(MkdirRes(S0, d, n, Least(FreeDirs)), H("mkdir", d, n, 0, "", FALSE, FALSE, 0, Least(FreeDirs), <<>>))
-    \/ FreeLeaves # {} /\ \E k \in {"fifo", "chr"} :
+    \/ "lookup" \in Ops /\ Do(LookupRes(S0, d, n), H("lookup", d, n, 0, "", FALSE, FALSE, 0, 0, <<>>))
+    \/ "mkdir" \in Ops /\ FreeDirs # {} /\ Do(MkdirRes(S0, d, n, Least(FreeDirs)), H("mkdir", d, n, 0, "", FALSE, FALSE, 0, Least(FreeDirs), <<>>))
+    \/ "mknod" \in Ops /\ FreeLeaves # {} /\ \E k \in {"fifo", "chr"} :
           Do(MknodRes(S0, d, n, k, Least(FreeLeaves), ""), H("mknod", d, n, 0, k, FALSE, FALSE, 0, Least(FreeLeaves), <<>>))
-    \/ Do(MknodRes(S0, d, n, "symlink", SymLeaf, "t0"), H("mknod", d, n, 0, "symlink", FALSE, FALSE, 0, SymLeaf, <<>>))
-    \/ \E c \in DOMAIN leaves : Do(LinkRes(S0, d, n, c), H("link", d, n, 0, "", FALSE, FALSE, c, 0, <<>>))
+    \/ "symlink" \in Ops /\ Do(MknodRes(S0, d, n, "symlink", SymLeaf, "t0"), H("mknod", d, n, 0, "symlink", FALSE, FALSE, 0, SymLeaf, <<>>))
+    \/ "link" \in Ops /\ \E c \in DOMAIN leaves : Do(LinkRes(S0, d, n, c), H("link", d, n, 0, "", FALSE, FALSE, c, 0, <<>>))
     \/ \E cr, ex \in BOOLEAN :
-          /\ cr \/ ex
+          /\ "open" \in Ops /\ (cr \/ ex)
           /\ cr => FreeLeaves # {}
           /\ LET new == IF cr THEN Least(FreeLeaves) ELSE 0 IN
              Do(OpenChildRes(S0, d, n, cr, ex, new), H("open", d, n, 0, "", cr, ex, 0, new, <<>>))
     \/ \E rd, rl \in BOOLEAN :
-          /\ rd \/ rl
+          /\ "vremove" \in Ops /\ (rd \/ rl)
           /\ Do(RemoveRes(S0, d, n, rd, rl), H("vremove", d, n, 0, "", rd, rl, 0, 0, <<>>))
     \/ \E d2 \in DOMAIN dirs : \E n2 \in Names :
+          /\ "rename" \in Ops
           /\ AllowSubtreeRename \/ ~Cyclic(d, n, d2)
           /\ Do(RenameRes(S0, d, n, d2, n2), H("rename", d, n, d2, n2, FALSE, FALSE, 0, 0, <<>>))
-    \/ \E w \in {"size", "owner", "other"} : Do(SetAttrRes(S0, d, w), H("setattr", d, w, 0, "", FALSE, FALSE, 0, 0, <<>>))
+    \/ "setattr" \in Ops /\ \E w \in {"size", "owner", "other"} : Do(SetAttrRes(S0, d, w), H("setattr", d, w, 0, "", FALSE, FALSE, 0, 0, <<>>))
 
 BulkCalls ==
   \E d \in DOMAIN dirs :
     \/ \E n \in Names :
-         \/ Do(RemoveRes(S0, d, n, TRUE, TRUE), H("remove", d, n, 0, "", TRUE, TRUE, 0, 0, <<>>))
-         \/ Do(RemoveAllRes(S0, d, n), H("removeall", d, n, 0, "", FALSE, FALSE, 0, 0, <<>>))
-         \/ FreeDirs # {} /\ Do(CreateAndEnterRes(S0, d, n, Least(FreeDirs)), H("enter", d, n, 0, "", FALSE, FALSE, 0, Least(FreeDirs), <<>>))
-    \/ \E self \in BOOLEAN : Do(RemoveAllChildrenRes(S0, d, self), H("clear", d, "", 0, "", self, FALSE, 0, 0, <<>>))
-    \/ \E ch \in ChildMenus : \E ow \in BOOLEAN :
+         \/ "remove" \in Ops /\ Do(RemoveRes(S0, d, n, TRUE, TRUE), H("remove", d, n, 0, "", TRUE, TRUE, 0, 0, <<>>))
+         \/ "removeall" \in Ops /\ Do(RemoveAllRes(S0, d, n), H("removeall", d, n, 0, "", FALSE, FALSE, 0, 0, <<>>))
+         \/ "enter" \in Ops /\ FreeDirs # {} /\ Do(CreateAndEnterRes(S0, d, n, Least(FreeDirs)), H("enter", d, n, 0, "", FALSE, FALSE, 0, Least(FreeDirs), <<>>))
+    \/ "clear" \in Ops /\ \E self \in BOOLEAN : Do(RemoveAllChildrenRes(S0, d, self), H("clear", d, "", 0, "", self, FALSE, 0, 0, <<>>))
+    \/ "create" \in Ops /\ \E ch \in ChildMenus : \E ow \in BOOLEAN :
           Do(CreateChildrenRes(S0, d, ch, ow), H("create", d, "", 0, "", ow, FALSE, 0, 0, ch))
-    \/ Do(ListAllRes(S0, d), H("listall", d, "", 0, "", FALSE, FALSE, 0, 0, <<>>))
-    \/ LET w == Walk(S0, d, {}) IN
-       \E stop \in 0 .. Len(w) : \E rm \in SUBSET (1 .. stop) :
-          Do(FilterChildrenRes(S0, d, stop, rm), H("filter", d, "", 0, "", FALSE, FALSE, stop, 0, <<>>))
+    \/ "listall" \in Ops /\ Do(ListAllRes(S0, d), H("listall", d, "", 0, "", FALSE, FALSE, 0, 0, <<>>))
+    \/ "filter" \in Ops /\ LET w == Walk(S0, d, {}) IN
+       \E stop \in 0 .. Len(w) : \E all \in BOOLEAN :
+          Do(FilterChildrenRes(S0, d, stop, IF all THEN 1 .. stop ELSE {}),
+             H("filter", d, "", 0, "", all, FALSE, stop, 0, <<>>))
 
 \* One page of the paginated listing: remember what was reported.
 PageUpdate(l, list, more) ==
@@ -513,7 +517,7 @@ Listing ==
           /\ hist' = Append(hist, H("readdir", lst.d, "", 0, "", TRUE, FALSE, lst.ck, lst.k, <<>>))
   /\ UNCHANGED mode
 
-Next == KernelCalls \/ (WithBulk /\ BulkCalls) \/ (WithListing /\ Listing)
+Next == KernelCalls \/ BulkCalls \/ ("listing" \in Ops /\ Listing)
 
 Spec == Init /\ [][Next]_vars
 
@@ -526,7 +530,9 @@ RelevantCookies(d) ==
 Rank(d, v) == Cardinality({u \in RelevantCookies(d) : u < v})
 View ==
   <<[d \in DOMAIN dirs |->
-       [deleted |-> dirs[d].deleted, lazy |-> dirs[d].lazy, pend |-> dirs[d].pend,
+       [deleted |-> dirs[d].deleted, pend |-> dirs[d].pend,
+        \* lazy-and-empty differs from instantiated-and-empty only for clear/filter
+        lazy |-> dirs[d].lazy /\ (dirs[d].pend # <<>> \/ Ops \cap {"clear", "filter"} # {}),
         ents |-> [i \in 1 .. Len(dirs[d].ents) |->
                     [n |-> dirs[d].ents[i].n, k |-> dirs[d].ents[i].k, c |-> dirs[d].ents[i].c,
                      ck |-> Rank(d, dirs[d].ents[i].ck)]]]],
